@@ -265,6 +265,8 @@ type listener struct {
 }
 
 func (l *listener) SetOption(n string, v interface{}) error {
+	l.lock.Lock()
+	defer l.lock.Unlock()
 	switch n {
 	case OptionWebSocketCheckOrigin:
 		if v, ok := v.(bool); ok {
@@ -293,7 +295,10 @@ func (l *listener) GetOption(n string) (interface{}, error) {
 		l.lock.Unlock()
 		return l, nil
 	case OptionWebSocketCheckOrigin:
-		if v, err := l.opts.get(n); err == nil {
+		l.lock.Lock()
+		v, err := l.opts.get(n)
+		l.lock.Unlock()
+		if err == nil {
 			if v, ok := v.(bool); ok {
 				return v, nil
 			}
@@ -301,6 +306,8 @@ func (l *listener) GetOption(n string) (interface{}, error) {
 		return true, nil
 
 	}
+	l.lock.Lock()
+	defer l.lock.Unlock()
 	return l.opts.get(n)
 }
 
@@ -321,7 +328,9 @@ func (l *listener) Listen() error {
 		return nil
 	}
 	if l.iswss {
+		l.lock.Lock()
 		v, ok := l.opts[mangos.OptionTLSConfig]
+		l.lock.Unlock()
 		if !ok || v == nil {
 			return mangos.ErrTLSNoConfig
 		}
@@ -463,8 +472,9 @@ func (l *listener) ServeHTTP(w http.ResponseWriter, r *http.Request) {
 		http.Error(w, "No handler at that address", http.StatusNotFound)
 		return
 	}
+	ug := l.ug // SetOption may replace the origin check meanwhile
 	l.lock.Unlock()
-	ws, err := l.ug.Upgrade(w, r, nil)
+	ws, err := ug.Upgrade(w, r, nil)
 	if err != nil {
 		return
 	}
